@@ -11,7 +11,20 @@ def _nt_all(r):
     return True
 
 PROPS = {
+    'C13': {
+        'props_files': ['Props/C13.v'],
+        'theorems': ['C13_tables_agree', 'C13_layout_and_length', 'C13_roundtrip', 'C13_set_invariant', 'C13_set_encoded_length'],
+        'nontrivial': 'maccmd cases whose values all fit the specified field widths (layout and round-trip clauses apply) and macset cases with at least one refused Add',
+        'nontrivial_fn': lambda r: (r['suite'] == 'maccmd') or (r['suite'] == 'macset' and '0' in r['impl'].split(' ')[0]),
+        'level_text': "Theorems for ALL field values and ALL Add sequences: the model of every command's encode equals CID + the LoRaWAN 1.0 layout (a table of bit offsets/widths typed from the specification, payload = little-endian sum of value*2^offset), has the Length() the Go source declares (generated table, obligation C13_tables_agree re-checked against the current source on every run), decodes back to the same values; any sequence of Add keeps the set strictly CID-sorted, of one direction and within its limit, and the set writes as many bytes as it reports. The hand-written model is tied to the code by running the extracted model and the real encode/decode/Add/List/EncodedLength on the same generated commands, buffers and Add/Remove sequences; the extracted layout spec judges the implementation's own bytes.",
+        'level_note': 'Trusted: Coq kernel, extraction, genconsts (switch arms + Length() literals), harness generators; encoding/binary Put/Uint16/32 modelled as little-endian arithmetic. Field values beyond the specified widths (but inside the Go types) are compared model-vs-code only; the specification does not judge them.',
+        'trusted': ['encoding/binary little-endian helpers modelled arithmetically (le_bytes/le_val)',
+                    'MAC command field order = Go struct declaration order, read by reflection in the harness'],
+        'assumes': ['a Go map keyed by CID is modelled as a CID-sorted association list (List() sorts by CID)'],
+    },
     'C14': {
+        'level_text': "For every block cipher E with 16-byte blocks, every key, every message length and every spare capacity: theorems C14_rfc (model of cmac.go = RFC 4493 written independently, subkeys by GF(2^128) doubling on numbers), C14_pure (bytes behind len unchanged), C14_involution / C14_only_payload (frame cipher). The hand-written model is tied to the code by a correspondence run (extracted model vs cmac.AESCMAC / PHYPayload.Decrypt on the same generated inputs, backing array dumped after each call) and the extracted RFC 4493 spec is applied as oracle to the implementation's own outputs.",
+        'level_note': 'Trusted: Coq kernel, extraction (ExtrOcamlBasic), crypto/aes as abstract E (concrete Gallina AES compared with crypto/aes each run), harness generators. Ceil modelled as (n+15)/16.',
         'props_files': ['Props/C14.v'],
         'theorems': ['C14_rfc', 'C14_pure', 'C14_involution', 'C14_only_payload'],
         'nontrivial': 'cmac cases with a partial last block or spare capacity > 0, cipher cases with >= 1 keystream block',
@@ -21,3 +34,4 @@ PROPS = {
         'assumes': ['Go slices: writes through append into spare capacity are the only way a callee can modify memory behind len'],
     },
 }
+NOT_APPLICABLE = {}
